@@ -295,6 +295,7 @@ impl<'a> Machine<'a> {
                 }
             }
             Cond::Bad => return Err(()),
+            Cond::Probed(_, inner) => self.eval_cond(inner)?,
         })
     }
 
@@ -344,7 +345,7 @@ impl<'a> Machine<'a> {
                 self.lines.push(format!("M {}({})", tag, vals.join(",")));
                 Ok(())
             }
-            Stmt::Gate(_) => Ok(()),
+            Stmt::Gate(_) | Stmt::InProbe(_) => Ok(()),
             Stmt::Raise(e) | Stmt::SendInternal(e) => {
                 self.iq.push_back(e.clone());
                 self.stat_max_iq = self.stat_max_iq.max(self.iq.len());
